@@ -286,3 +286,18 @@ class Computed:
 
     def __init__(self, fn):
         self.fn = fn
+
+
+class SymMat:
+    """list of `h` rows, each a list of `w` cells; cells are opaque ids (z3 Int): Array(Int, Array(Int, Int))."""
+
+    def __init__(self, arr, h, w):
+        self.arr, self.h, self.w = arr, h, w
+        self.orig = None
+
+
+class SymRowRef:
+    """mat[r] of a SymMat: reads and writes go to the matrix"""
+
+    def __init__(self, mat, r):
+        self.mat, self.r = mat, r
